@@ -98,7 +98,7 @@ func (m *Machine) nativeMethod(th *Thread, recv *NativeV, name string, args []Va
 		case "Kind":
 			return m.tt.Const(64, reflectKind(r.t)), true
 		case "String":
-			return concStr(typeKey(r.t)), true
+			return concStr(types.TypeString(r.t, func(p *types.Package) string { return p.Name() })), true
 		case "Name":
 			if n, ok := r.t.(*types.Named); ok {
 				return concStr(n.Obj().Name()), true
